@@ -305,3 +305,27 @@ def rule_address_per_evaluation(ctx):
                'the address of an earlier evaluation (nodes can be shared between cells and sheets; a wrong address reads the wrong cell '
                'and can report a cycle that is not there)')
     return 1
+
+
+# --------------------------------------------------------------------------------------------------------------
+# L4: a formula object belongs to one sheet
+# --------------------------------------------------------------------------------------------------------------
+def rule_formula_per_sheet(ctx):
+    """Two XLFormula objects built from the same text for two sheets, one after the other (module-level state shared):
+    each must carry its own sheet and terms qualified with it."""
+    xm = ctx.mod('xltypes')
+    cnode = xm.cls('XLFormula')
+    world = World()
+    got = []
+    for sheet in ('North', 'South', 'North'):
+        it = Interp(ctx.a, xm, {}, inline_pkg=True, world=world)
+        f = it._construct('pkg:xltypes:XLFormula', ['=A1*$A$2+Other!B2+SUM(C1:C3)', sheet], {})
+        if not isinstance(f, Rec) or 'terms' not in f.f or any(e[0] == '<init-unmodelled>' for e in it.out.events):
+            raise Unmodelled('XLFormula construction (terms) on the witness formula')
+        got.append((f.f.get('sheet_name'), list(f.f['terms'])))
+    want = [(s, [f'{s}!A1', f'{s}!A2', 'Other!B2', f'{s}!C1:C3']) for s in ('North', 'South', 'North')]
+    ctx.expect(got == want, cnode, 'terms of a formula: own text, own sheet, on every construction',
+               f'XLFormula("=A1*$A$2+Other!B2+SUM(C1:C3)", sheet) built for North, South, North gives {got}, expected {want}: '
+               'unqualified references take the sheet of the formula, $ is dropped, and nothing is carried over from a formula built '
+               'earlier from the same text (extract(), build_ranges and the dependency terms follow these)')
+    return 1
